@@ -9,4 +9,4 @@ Extraction "extract/host_core.ml"
   SegPath mk_world st_init step
   ids next opened rlog fc rim sroot
   path_for_file file_for_path
-  index document_link workspace notfound_of outline_of files_of.
+  index document_link workspace notfound_of outline_of files_of digest.
